@@ -2,7 +2,7 @@
 From Coq Require Import ZArith List Bool.
 From Coq Require Import Permutation Sorted.
 From CTM Require Import Base.Sx Model.Tree Model.Vote Model.Election Proofs.VoteP Proofs.VoteMainP Proofs.ConfidenceP
-     Proofs.ChooseP Proofs.ElectionP Proofs.RtaShapeP Model.VoteDecide Proofs.VoteDecideP Model.AvgCorr Proofs.AvgCorrP.
+     Proofs.ChooseP Proofs.ElectionP Proofs.RtaShapeP Model.VoteDecide Proofs.VoteDecideP Model.AvgCorr Proofs.AvgCorrP Proofs.CorrInheritP.
 Import ListNotations.
 Open Scope Z_scope.
 
@@ -106,6 +106,36 @@ Example c03_avg_corr_example :
   avg_corr 1024 [7; 9; 7] (tally_corr 3 its) 9 = (-1024, 1024).
 Proof. split; [|vm_compute; split; reflexivity].
   intros it [E|[E|[E|[]]]]; subst it; cbn [snd]; split; discriminate. Qed.
+
+(* ... and so does the avg_correlation of EVERY level of every output row after the two trailing passes of
+   run_type_assignment (inheritance from the level above, 1.0 at the top; running product): when each correlation
+   that a vote computed is a fraction in [-1,1] (which c03_reported_avg_corr_ok shows for what choose_node reports),
+   every level - voted, single-child or inherited over any number of levels - carries one *)
+Theorem c03_reported_avg_corr_ok : forall D owners its t,
+  0 < D -> (forall it, In it its -> - D <= snd it <= D) ->
+  corr_ok (avg_corr D owners (tally_corr (length owners) its) t).
+Proof. exact avg_corr_ok. Qed.
+Print Assumptions c03_reported_avg_corr_ok.
+
+Theorem c03_filled_corr_in_range : forall row rs,
+  (forall r c, In (Some r) row -> corr r = Some c -> corr_ok c) ->
+  inherit None row = Ok rs ->
+  Forall (fun r => exists c, corr r = Some c /\ corr_ok c) (running one rs).
+Proof. exact filled_corr_in_range. Qed.
+Print Assumptions c03_filled_corr_in_range.
+
+(* non-vacuity: top level single-child (no correlation: 1.0), a voted level (-1/2), a single-child level below it *)
+Example c03_filled_corr_example :
+  let row := [Some (trivial_rec 1); Some {| asg := 2; prob := (3, 4); corr := Some (-1, 2); runners := []; agg := one |};
+              Some (trivial_rec 3)] in
+  (forall r c, In (Some r) row -> corr r = Some c -> corr_ok c) /\
+  option_map (fun rs => map corr (running one rs)) (match inherit None row with Ok rs => Some rs | _ => None end) =
+    Some [Some (1, 1); Some (-1, 2); Some (-1, 2)].
+Proof.
+  split; [|vm_compute; reflexivity].
+  intros r c [E|[E|[E|[]]]] Hc; injection E as <-; cbn in Hc; try discriminate Hc.
+  injection Hc as <-. unfold corr_ok; cbn. repeat split; discriminate.
+Qed.
 
 (* At the level of run_type_assignment, for every decision procedure and every valid taxonomy:
    the aggregate probability of every row is the running product, from the top, of the
